@@ -96,7 +96,7 @@ pub fn run(tier: Tier) -> i32 {
     run.add("pinned_vectors", pinned.len() as u64);
     run.add("pinned_vectors_reference_agrees", ok);
     let leaves = all_leaves();
-    let st = run_units(&run, &leaves, true, tier.thorough(), |b, loc: &mut Local| text_check(b, loc));
+    let st = run_units(&run, &leaves, true, true, |b, loc: &mut Local| text_check(b, loc));
     run.sample(json!({"input": "8d40621d58c382d690c8ac2863a7", "expected_first_line": " Extended Squitter Airborne position (barometric altitude)"}));
     let cov = e1_coverage(
         &run,
